@@ -1,6 +1,176 @@
-//! `hier ...` commands: pearl::filter::HierarchicalFilters with a harness-defined child type.
+//! `hier ...` commands: pearl::filter::HierarchicalFilters<ArrayKey<N>, CombinedFilter, Child> (level = 1, as the
+//! storage builds it) with a harness-defined child that owns one CombinedFilter, like a closed blob owns its index filter.
+use crate::util::*;
 use crate::Ctx;
+use pearl::filter::{BloomProvider, CombinedFilter, FilterTrait, HierarchicalFilters, RangeFilter};
+use pearl::{ArrayKey, Bloom, FilterResult};
+use std::collections::HashMap;
+use std::sync::Mutex;
+
+pub struct Child<const N: usize> {
+    filter: CombinedFilter<ArrayKey<N>>,
+}
+
+#[async_trait::async_trait]
+impl<const N: usize> BloomProvider<ArrayKey<N>> for Child<N> {
+    type Filter = CombinedFilter<ArrayKey<N>>;
+    async fn check_filter(&self, item: &ArrayKey<N>) -> FilterResult {
+        self.filter.contains_fast(item)
+    }
+    fn check_filter_fast(&self, item: &ArrayKey<N>) -> FilterResult {
+        self.filter.contains_fast(item)
+    }
+    async fn offload_buffer(&mut self, _needed_memory: usize, _level: usize) -> usize {
+        self.filter.offload_filter()
+    }
+    async fn get_filter(&self) -> Option<Self::Filter> {
+        Some(self.filter.clone())
+    }
+    fn get_filter_fast(&self) -> Option<&Self::Filter> {
+        Some(&self.filter)
+    }
+    async fn filter_memory_allocated(&self) -> usize {
+        self.filter.memory_allocated()
+    }
+}
+
+type Hier<const N: usize> = HierarchicalFilters<ArrayKey<N>, CombinedFilter<ArrayKey<N>>, Child<N>>;
+
+static HIERS: Mutex<Option<HashMap<usize, Box<dyn std::any::Any + Send>>>> = Mutex::new(None);
+
+fn fr(r: FilterResult) -> &'static str {
+    match r {
+        FilterResult::NeedAdditionalCheck => "Maybe",
+        FilterResult::NotContains => "No",
+    }
+}
+
+fn key_of<const N: usize>(hex: &str) -> ArrayKey<N> {
+    ArrayKey::<N>::from(hex_decode(hex))
+}
+
+fn describe<const N: usize>(f: Option<&CombinedFilter<ArrayKey<N>>>) -> String {
+    match f {
+        None => "none".to_string(),
+        Some(f) => {
+            let r = f.range().to_raw().map(|b| hex_encode(&b)).unwrap_or_else(|_| "err".into());
+            let b = match f.bloom() {
+                None => "none".to_string(),
+                Some(b) if b.is_offloaded() => "off".to_string(),
+                Some(b) => b.to_raw().map(|x| hex_encode(&x)).unwrap_or_else(|_| "err".into()),
+            };
+            format!("r={} b={}", r, b)
+        }
+    }
+}
 
 pub async fn cmd_hier<const N: usize>(ctx: &mut Ctx, args: &[&str]) {
-    ctx.emit(format!("HARNESS-ERROR hier not implemented {:?}", args));
+    // one hierarchy per script (scripts run one after another inside a process; `hier new` replaces it)
+    let slot = N;
+    macro_rules! take {
+        () => {{
+            let mut g = HIERS.lock().unwrap();
+            match g.get_or_insert_with(HashMap::new).remove(&slot) {
+                Some(b) => match b.downcast::<Hier<N>>() {
+                    Ok(h) => *h,
+                    Err(_) => {
+                        ctx.emit("HARNESS-ERROR hier type");
+                        return;
+                    }
+                },
+                None => {
+                    ctx.emit("HARNESS-ERROR no hier");
+                    return;
+                }
+            }
+        }};
+    }
+    macro_rules! put {
+        ($h:expr) => {{
+            let mut g = HIERS.lock().unwrap();
+            g.get_or_insert_with(HashMap::new).insert(slot, Box::new($h));
+        }};
+    }
+    match args {
+        ["new", group] => {
+            let h: Hier<N> = HierarchicalFilters::new(group.parse().unwrap(), 1);
+            put!(h);
+            ctx.emit("hier new");
+        }
+        ["push", cfg, _hashers, _bits, keys] => {
+            let mut h = take!();
+            let bloom = if *cfg == "none" { None } else { Some(Bloom::new(crate::bloom_cmds::config_from_bytes(&hex_decode(cfg)))) };
+            let filter = CombinedFilter::new(bloom, RangeFilter::new());
+            if *keys != "-" {
+                for k in keys.split(',') {
+                    filter.add(&key_of::<N>(k));
+                }
+            }
+            let id = h.push(Child { filter }).await;
+            put!(h);
+            ctx.emit(format!("hier push {}", id));
+        }
+        ["pop"] => {
+            let mut h = take!();
+            let r = h.pop();
+            put!(h);
+            ctx.emit(format!("hier pop {}", if r.is_some() { "some" } else { "none" }));
+        }
+        ["remove", i] => {
+            let mut h = take!();
+            let r = h.remove(i.parse().unwrap());
+            put!(h);
+            ctx.emit(format!("hier remove {}", if r.is_some() { "some" } else { "none" }));
+        }
+        ["offload", needed, level] => {
+            let mut h = take!();
+            let n = if *needed == "max" { usize::MAX } else { needed.parse().unwrap() };
+            let freed = h.offload_buffer(n, level.parse().unwrap()).await;
+            put!(h);
+            ctx.emit(format!("hier offload {}", freed));
+        }
+        ["iter", key] | ["iterrev", key] => {
+            let h = take!();
+            let k = key_of::<N>(key);
+            let ids: Vec<String> = if args[0] == "iter" {
+                h.iter_possible_childs(&k).map(|(i, _)| i.to_string()).collect()
+            } else {
+                h.iter_possible_childs_rev(&k).map(|(i, _)| i.to_string()).collect()
+            };
+            put!(h);
+            ctx.emit(format!("hier {} {}", args[0], if ids.is_empty() { "-".to_string() } else { ids.join(",") }));
+        }
+        ["fast", key] => {
+            let h = take!();
+            let r = h.check_filter_fast(&key_of::<N>(key));
+            put!(h);
+            ctx.emit(format!("hier fast {}", fr(r)));
+        }
+        ["check", key] => {
+            let h = take!();
+            let r = h.check_filter(&key_of::<N>(key)).await;
+            put!(h);
+            ctx.emit(format!("hier check {}", fr(r)));
+        }
+        ["root"] => {
+            let h = take!();
+            let s = describe::<N>(h.get_filter_fast());
+            put!(h);
+            ctx.emit(format!("hier root {}", s));
+        }
+        ["mem"] => {
+            let h = take!();
+            let m = h.filter_memory_allocated().await;
+            put!(h);
+            ctx.emit(format!("hier mem {}", m));
+        }
+        ["len"] => {
+            let h = take!();
+            let n = h.len();
+            let last = h.last_id();
+            put!(h);
+            ctx.emit(format!("hier len {} last {}", n, last.map(|x| x.to_string()).unwrap_or_else(|| "none".into())));
+        }
+        _ => ctx.emit(format!("HARNESS-ERROR bad hier command {:?}", args)),
+    }
 }
